@@ -34,7 +34,7 @@ IsEv(e) == l <= Len(Trace) /\ Line.ev = e /\ l' = l + 1
 TraceInit ==
    /\ l = 1 /\ caseIdx = -1 /\ cScript = <<>> /\ oRaw = <<>> /\ oErrs = <<>> /\ oLogs = <<>> /\ oInvoked = 0
    /\ oScript = <<>> /\ oEnd = <<>> /\ diverged = FALSE
-   /\ cfg = [strict |-> FALSE, reqClass |-> "valid_post", errMode |-> "default"]
+   /\ cfg = [strict |-> FALSE, reqClass |-> "valid_post", errMode |-> "default", gate |-> "validator"]
    /\ phase = "done" /\ w = WInit /\ hdr = "none" /\ script = <<>> /\ cOut = <<>>
    /\ invoked = 0 /\ errs = <<>> /\ logs = <<>>
 
@@ -107,6 +107,7 @@ Judge ==
 
 Fidelity ==
    (oEnd # <<>> /\ RunFailed = {}) =>
+      \/ (cfg.gate = "vhandler" /\ cfg.reqClass \notin ValidClasses)        \* the encoder's body is not modelled
       \/ (~diverged /\ cOut = oRaw /\ (cfg.errMode = "custom" => errs = oErrs) /\ logs = oLogs)
       \/ CSVWrite("%1$s", <<ToJson([case |-> caseIdx, diverged |-> diverged, model |-> cOut,
                                      observed |-> oRaw, mlogs |-> logs, ologs |-> oLogs])>>,
